@@ -19,6 +19,9 @@ def make(rng, index, n_entries=None, volumes=None, names=None, dates=None,
                         rng.choice(['unset', 'unset', 'set']),
                         top_states=top_states, alt_states=alt_states,
                         uid=uid, trash_volumes_env=trash_volumes_env)
+    if rng.random() < 0.5:
+        # the order in which a directory's entries are listed is arbitrary
+        L.extra['listdir_seed'] = rng.getrandbits(30)
     if tz is False:
         tz = trashgen.pick_tz(rng)
     if tz:
